@@ -26,7 +26,7 @@ func TestVerifReplayC08BranchSelection(t *testing.T) {
 	}
 	var log []gocbcore.FailoverEntry
 	type req struct {
-		uuid                   gocbcore.VbUUID
+		uuid                     gocbcore.VbUUID
 		start, end, snapS, snapE gocbcore.SeqNo
 	}
 	var got []req
